@@ -73,6 +73,7 @@ var units = []Unit{
 		{Kind: "block", Name: "decodeMessageData_timestamp", Func: "Decoder.decodeMessageData", Anchor: "d.lastTimeOffset"},
 		// timestamp tracking of decodeFields: d.timestamp = timestamp; d.lastTimeOffset = byte(timestamp & mask)
 		{Kind: "block", Name: "decodeFields_timestamp", Func: "Decoder.decodeFields", Anchor: "d.lastTimeOffset"},
+		{Kind: "func", Name: "bits.Pull"},
 		{Kind: "cond", Name: "decodeMessageData_isCompressed", Func: "Decoder.decodeMessageData", Anchor: "MesgCompressedHeaderMask", Occur: 1},
 	}},
 	{Name: "encoder", Dir: "encoder", Items: []Item{
